@@ -90,4 +90,75 @@ def denseEndDefect (tab : Tableau Rat) : Rat :=
   (tab.bi.zip (tab.b ++ List.replicate tab.bi.length 0)).foldl
     (fun acc p => max acc (absRat (p.1.foldl (· + ·) 0 - p.2))) 0
 
+/-! ### Butcher's order conditions over all rooted trees
+
+A rooted tree is `•` or the Butcher product `a ∘ b` (the tree `b` with `a` grafted onto its root as one
+more child); every plane tree arises this way, so enumerating these terms enumerates every rooted tree
+(several times, which is harmless: elementary weight and density do not depend on the order of the
+children).  For a tree `t` the method has order `p` iff `Σ_i b_i Φ_i(t) = 1/γ(t)` for every tree with
+at most `p` vertices (Butcher 1963; Hairer–Nørsett–Wanner II.2) — for non-autonomous, non-linear
+right-hand sides, provided the nodes are the row sums. -/
+inductive BTree where
+  | leaf : BTree
+  | graft : BTree → BTree → BTree
+deriving DecidableEq, Repr
+
+namespace BTree
+def order : BTree → Nat
+  | leaf => 1
+  | graft a b => a.order + b.order
+
+/-- the density γ(t) = |t| · Π γ(children): grafting `a` onto `b` multiplies by γ(a) and replaces the
+factor |b| by |a| + |b| -/
+def gamma : BTree → Rat
+  | leaf => 1
+  | graft a b => ((a.order + b.order : Nat) : Rat) * a.gamma * b.gamma / (b.order : Nat)
+end BTree
+
+def dotRat (u v : List Rat) : Rat := (u.zip v).foldl (fun acc p => acc + p.1 * p.2) 0
+
+/-- A·v for the strictly lower-triangular coefficient rows -/
+def applyA (A : List (List Rat)) (v : List Rat) : List Rat := A.map fun row => dotRat row v
+
+/-- elementary weights Φ_i(t), one per stage: Φ_i(•) = 1, Φ_i(a ∘ b) = Φ_i(b) · Σ_j a_ij Φ_j(a) -/
+def phi (A : List (List Rat)) : BTree → List Rat
+  | .leaf => A.map fun _ => 1
+  | .graft a b => List.zipWith (· * ·) (phi A b) (applyA A (phi A a))
+
+def treeResidual (tab : Tableau Rat) (t : BTree) : Rat :=
+  absRat (dotRat tab.b (phi tab.a t) - 1 / t.gamma)
+
+/-- a tree with its elementary weights `p = Φ(t)` and `q = A·Φ(t)` (kept so that each Butcher product
+costs one pass over the stages) -/
+structure WTree where
+  t : BTree
+  p : List Rat
+  q : List Rat
+
+def WTree.mk' (A : List (List Rat)) (t : BTree) (p : List Rat) : WTree := ⟨t, p, applyA A p⟩
+def WTree.full (A : List (List Rat)) (t : BTree) : WTree := WTree.mk' A t (phi A t)
+def WTree.graft (A : List (List Rat)) (a b : WTree) : WTree :=
+  WTree.mk' A (.graft a.t b.t) (List.zipWith (· * ·) b.p a.q)
+
+/-- `treeTable A n = [trees with 1 vertex, …, trees with n vertices]`, every tree (as a Butcher product)
+with its weights -/
+def treeTable (A : List (List Rat)) : Nat → List (List WTree)
+  | 0 => []
+  | n + 1 =>
+    let T := treeTable A n
+    T ++ [(if n = 0 then [WTree.full A .leaf] else []) ++
+      (List.range n).flatMap fun k =>
+        (T.getD k []).flatMap fun a => (T.getD (n - 1 - k) []).map fun b => WTree.graft A a b]
+
+def wResidual (tab : Tableau Rat) (w : WTree) : Rat := absRat (dotRat tab.b w.p - 1 / w.t.gamma)
+
+/-- the largest residual `|Σ_i b_i Φ_i(t) − 1/γ(t)|` over every tree with exactly `n` vertices -/
+def treeDefectAt (tab : Tableau Rat) (n : Nat) : Rat :=
+  ((treeTable tab.a n).getD (n - 1) []).foldl (fun acc w => max acc (wResidual tab w)) 0
+
+/-- the tableau is well formed: one row of `a` and one node per weight, row `i` has at most `i` entries -/
+def shapeOk (tab : Tableau Rat) : Bool :=
+  tab.a.length == tab.b.length && tab.c.length == tab.b.length &&
+  (tab.a.zipIdx.all fun p => p.1.length ≤ p.2)
+
 end Qv.C10
